@@ -4,6 +4,7 @@ package main
 // provenance of the store it acts on (which keeper's store key, which prefix) and of its key argument.
 
 import (
+	"fmt"
 	"sort"
 	"strings"
 
@@ -95,6 +96,53 @@ func (p *Prog) StoreOps() []StoreOp {
 			out = append(out, so)
 		}
 	}
+	// A store operation on a store that is a PARAMETER of its function (an iteration / access helper that is handed the prefix
+	// store) belongs to the callers: it is attributed to every call site, with the store term the caller passes.
+	var extra []StoreOp
+	keep := out[:0:0]
+	for _, so := range out {
+		pi := storeParamIndex(so.Store)
+		if pi < 0 {
+			keep = append(keep, so)
+			continue
+		}
+		callers, _ := p.CallersOf(so.Fn)
+		attributed := false
+		for _, c := range callers {
+			if p.IsGenerated(c) {
+				continue
+			}
+			co := NewOrigin(p, c)
+			for _, cs := range callSites(c) {
+				if cs.Callee == nil || resolveBound(cs.Callee) != so.Fn {
+					continue
+				}
+				args := cs.Instr.Common().Args
+				if pi >= len(args) {
+					continue
+				}
+				n := StoreOp{Fn: c, Instr: cs.Instr, Op: so.Op, o: co}
+				n.Store = co.Of(args[pi])
+				st := n.Store
+				if st.IsCall("store/prefix.NewStore") && len(st.Args) == 2 {
+					n.Prefix = st.Args[1]
+					st = st.Args[0]
+				} else {
+					n.Raw = true
+				}
+				n.KeyRoot = storeKeyRoot(st)
+				if n.KeyRoot == "" {
+					continue
+				}
+				extra = append(extra, n)
+				attributed = true
+			}
+		}
+		if !attributed {
+			keep = append(keep, so)
+		}
+	}
+	out = append(keep, extra...)
 	sort.SliceStable(out, func(i, j int) bool {
 		if out[i].Fn.String() != out[j].Fn.String() {
 			return out[i].Fn.String() < out[j].Fn.String()
@@ -148,4 +196,20 @@ func PrefixName(t *Term) string {
 		return t.Args[0].Name
 	}
 	return ""
+}
+
+// storeParamIndex: the store operand is (a prefix store over) a parameter of the enclosing function; returns the parameter's
+// position in the call's argument list, -1 otherwise.
+func storeParamIndex(st *Term) int {
+	if st == nil {
+		return -1
+	}
+	t := st
+	if t.Op == "param" {
+		var i int
+		if _, err := fmt.Sscanf(t.Name, "%d:", &i); err == nil {
+			return i
+		}
+	}
+	return -1
 }
